@@ -165,9 +165,9 @@ func checkTransition(t *vk.T, seed int, before, after [][2]int, point, kind stri
 		return // the defect (if any) is reported on the transition that introduced it
 	}
 	if e2 != "" {
-		// an append edit within the language must compile (also C07's business); here it is
-		// reported because nothing can be compared
-		t.Violation("append-breaks-compilation|append="+kind+"|"+vk.ErrTail(fmt.Errorf("%s", e2)), fmt.Sprintf("appending %s at %s makes the package fail to compile: %s\nbefore:\n%s\nafter:\n%s", kind, point, e2, src1, src2), src2, nil, e2)
+		// whether every appended program compiles is C07's question, not this property's:
+		// nothing can be compared here
+		t.Class("appended-program-rejected")
 		return
 	}
 	for _, pair := range []struct {
